@@ -1,5 +1,7 @@
 import GqlVerif.Props.C04
 import GqlVerif.Proofs.C05Body
+import GqlVerif.Proofs.C04SurjectiveExamples
+import GqlVerif.Proofs.C04SurjectiveSerValid
 open GqlVerif.C04
 #print axioms GqlVerif.C01.ser_fields_iff
 #print axioms variables_fields_are_declared
@@ -26,3 +28,14 @@ open GqlVerif.C04
 #print axioms GqlVerif.C04Keys.variables_keys_of_assignment
 #print axioms GqlVerif.C04Keys.distinct_names_needed
 #print axioms GqlVerif.C04Keys.distinct_members_needed
+-- every valid assignment is expressible; every value serializes to a valid assignment (Proofs/C04Surjective*.lean)
+#print axioms GqlVerif.C04S.express_core
+#print axioms GqlVerif.C04S.inputEnv_of_module
+#print axioms GqlVerif.C04S.input_expressible
+#print axioms GqlVerif.C04S.variables_expressible
+#print axioms GqlVerif.C04S.no_variables_expressible
+#print axioms GqlVerif.C04S.ser_valid
+#print axioms GqlVerif.C04S.variables_ser_valid
+#print axioms GqlVerif.C04S.int64_not_graphql_int
+#print axioms GqlVerif.C04S.enum_other_not_declared
+#print axioms GqlVerif.C04S.id_written_as_string
